@@ -13,7 +13,7 @@ import signal
 from .common import NCPU
 
 
-class _Timeout(Exception):
+class _Timeout(BaseException):  # must not be swallowed by "except Exception" in oracles
     pass
 
 
@@ -246,11 +246,15 @@ def _job(job, emit):
         rec["n_implicit_mismatch"] = len(mism)
 
     rng = random.Random(f"{job['seed']}/{prog}/{job['shard']}")
+    from . import edittrace
+    if job.get("edit_cap"):
+        edittrace.start(cap=job["edit_cap"])  # elementary edits of every primitive -> spec/CursorEditTrace.tla
     for k, cnd in enumerate(cands):
         if k % job["nshards"] != job["shard"] or k < job.get("start", 0):
             continue
         emit("begin", k)
         rec = {"prog": prog, "op": cnd.op, "args": cnd.args, "facts": cnd.facts}
+        edittrace.set_ctx(f"{prog}|{cnd.op}({cnd.args})")
         signal.alarm(40)
         try:
             q = cnd.fn()
@@ -322,6 +326,9 @@ def _job(job, emit):
         except _Timeout:
             rec["status"] = "timeout"
         emit("rec", rec)
+    if job.get("edit_cap"):
+        emit("rec", {"prog": prog, "op": "~edits", "args": str(job["shard"]), "status": "edits",
+                     "edits": edittrace.drain(), "edit_stats": edittrace.stats()})
 
 
 def _on_hang(job, k):
@@ -332,7 +339,7 @@ def _on_hang(job, k):
     return {"prog": f"{job['module']}[{job['index']}]", "op": "?", "args": f"candidate {k}", "status": "hung"}, nj
 
 
-def run(modules, seed, nshards=4, select=None, ops=None, depth2=0, implicit=0.0):
+def run(modules, seed, nshards=4, select=None, ops=None, depth2=0, implicit=0.0, edit_cap=0):
     from .pool import stream_pool
     from .common import MachineryError
 
@@ -344,9 +351,32 @@ def run(modules, seed, nshards=4, select=None, ops=None, depth2=0, implicit=0.0)
                 continue
             for sh in range(nshards):
                 jobs.append({"module": m, "index": idx, "seed": seed, "shard": sh, "nshards": nshards, "ops": ops,
-                             "depth2": depth2, "implicit": implicit})
+                             "depth2": depth2, "implicit": implicit, "edit_cap": edit_cap})
     recs, crashes, hangs = stream_pool(jobs, _job, NCPU, silence=240, on_hang=_on_hang)
     if crashes:
         raise MachineryError("C06 worker crashed:\n" + crashes[0][1])
     recs.sort(key=lambda e: (e["prog"], e["op"], e["args"]))
     return recs
+
+
+def validate_edits(edit_recs, workdir, timeout=1500):
+    """Recorded elementary edits -> spec/CursorEditTrace.tla.  -> (verdict records aligned with edit_recs, TLCResult)"""
+    import json
+    import os
+    from .common import run_tlc, MachineryError, tlc_failure_excerpt
+    if not edit_recs:
+        return [], None
+    path = os.path.join(workdir, "edits.json")
+    with open(path, "w") as f:
+        json.dump(edit_recs, f)
+    r = run_tlc("CursorEditTrace", "CursorEditTrace.cfg", workdir, env={"EXO_EDITS": path}, timeout=timeout)
+    if not r.ok:
+        raise MachineryError("TLC failed on CursorEditTrace:\n" + tlc_failure_excerpt(r.stdout))
+    out = [None] * len(edit_recs)
+    for v in r.records:
+        if isinstance(v, dict) and "r" in v:
+            out[v["r"] - 1] = v
+    if any(v is None for v in out):
+        raise MachineryError("CursorEditTrace: missing verdicts")
+    os.unlink(path)
+    return out, r
